@@ -1,10 +1,10 @@
 package wk_test
 
 import (
-	"fmt"
 	"math/rand/v2"
 	"testing"
 
+	"verif/harness/internal/gen"
 	"verif/harness/internal/mon"
 	"verif/harness/internal/svc"
 	"verif/harness/internal/wire"
@@ -40,11 +40,20 @@ func TestSmoke(t *testing.T) {
 		if bad := svc.Match(pred, res.Header, res.Output, svc.MatchOpt{}); len(bad) > 0 {
 			t.Errorf("%s: %v (ended %s, %d responses)", m, bad, res.Ended, len(res.Responses))
 		}
-		fmt.Printf("%s: ended=%s responses=%d\n", m, res.Ended, len(res.Responses))
+		if len(res.Responses) < 2 {
+			t.Errorf("%s: only %d responses", m, len(res.Responses))
+		}
 	}
+	probes := 0
 	for _, e := range log.Snapshot() {
 		if e.Actor == "wk" {
-			fmt.Printf("%s %s %+v\n", e.Kind, e.Key, e.Payload)
+			probes++
 		}
+	}
+	if probes == 0 {
+		t.Errorf("no probe events recorded")
+	}
+	if fr := wk.Frames(gen.IPCBytes(svc.InSchema)); len(fr) != 2 || fr[0].Type != "schema" || fr[1].Type != "eos" {
+		t.Errorf("Frames of an empty stream: %+v", fr)
 	}
 }
